@@ -161,6 +161,143 @@ fn part_a_single(ctx: &mut Ctx, evals: &mut u64, nontrivial: &mut u64) {
     }
 }
 
+/// Inputs that are not tiny: (1) prefixes of 18–24 entries whose late entries carry the
+/// information; (2) iterator runs of 1500 steps on the auto-extrapolating wrapper (alone, and
+/// after a clone has answered a far query), against an eagerly extrapolated Curve.
+fn part_long(ctx: &mut Ctx, evals: &mut u64, nontrivial: &mut u64) {
+    // distance needed for n jobs = D[n-2]; super-additive closure: D(a + b - 1) >= D(a) + D(b)
+    fn closure(pf: &[u64], upto: usize) -> Vec<u64> {
+        let mut dd: Vec<u64> = pf.to_vec();
+        while dd.len() + 1 < upto {
+            let n = dd.len() + 2; // jobs
+            let mut best = *dd.last().unwrap();
+            for a in 2..n {
+                let b = n + 1 - a;
+                if b >= 2 && b < n {
+                    best = best.max(dd[a - 2] + dd[b - 2]);
+                }
+            }
+            dd.push(best);
+        }
+        dd
+    }
+    let mut longs: Vec<Vec<u64>> = vec![];
+    let mut v: Vec<u64> = (1..=17).collect();
+    v.push(36);
+    longs.push(v);
+    let mut v: Vec<u64> = (1..=19).map(|i| 2 * i).collect();
+    v.push(80);
+    longs.push(v);
+    longs.push((2..=21u64).map(|n| ((n - 1) * 5).saturating_sub(30)).collect());
+    longs.push((2..=25u64).map(|n| if n < 20 { n / 3 } else { n / 3 + 40 }).collect());
+    longs.push((0..22u64).map(|i| i * i / 4).collect());
+    for pf in longs.iter().filter(|p| is_superadditive(p) && *p.last().unwrap() > 0) {
+        let last = *pf.last().unwrap();
+        let l = pf.len();
+        let want = closure(pf, 3 * l + 4);
+        let mut exts = vec![Ext::Horizon(last + 1), Ext::Horizon(2 * last), Ext::Horizon(3 * last + 7)];
+        for k in [1usize, 5, 20, 2 * l] {
+            exts.push(Ext::Steps(l + 1 + k));
+        }
+        let plain = ArrSpec::curve(pf);
+        for e in exts {
+            *evals += 1;
+            *nontrivial += 1;
+            let case = json!({"dmin": pf, "ext": e});
+            let fname = if matches!(e, Ext::Horizon(_)) { "arrival::Curve::extrapolate" } else { "arrival::Curve::extrapolate_steps" };
+            let r = catch(|| {
+                let mut c = ArrSpec::curve(pf);
+                match &e {
+                    Ext::Horizon(x) => c.extrapolate(d(*x)),
+                    Ext::Steps(n) => c.extrapolate_steps(*n),
+                    _ => unreachable!(),
+                }
+                let reach = du(c.min_distance(1 << 40));
+                // entries as far as the reference was computed
+                let entries: Vec<u64> = (2..want.len() + 2).map(|n| du(c.min_distance(n))).take_while(|x| *x < reach).collect();
+                let hh = reach.min(3 * last + 7);
+                let above = (0..=hh).find(|x| c.number_arrivals(d(*x)) > plain.number_arrivals(d(*x)));
+                (entries, above, reach)
+            });
+            match r {
+                Err(err) => ctx.violation(&format!("{fname}#panic"), &format!("long prefix {:?} {:?}: panic {err}", pf, e), "ext-long", case),
+                Ok((entries, above, reach)) => {
+                    if let Some(i) = (0..entries.len().min(want.len())).find(|i| entries[*i] != want[*i]) {
+                        let sym = if i < l { "changes-prefix" } else if entries[i] < want[i] { "more-arrivals-than-plain" } else { "undercounts-prefix-compliant-sequence" };
+                        ctx.violation(&format!("{fname}#{sym}+long-prefix"), &format!("prefix of {l} entries {:?} {:?}: entry for {} jobs is {}, the super-additive closure of the prefix gives {} (extended prefix reaches {reach})", pf, e, i + 2, entries[i], want[i]), "ext-long", case.clone());
+                    } else if let Some(x) = above {
+                        ctx.violation(&format!("{fname}#more-arrivals-than-plain+long-prefix"), &format!("prefix of {l} entries {:?} {:?}: more arrivals than the un-extrapolated curve at delta={x}", pf, e), "ext-long", case.clone());
+                    }
+                }
+            }
+        }
+        // the auto-extrapolating wrapper agrees with the closure
+        *evals += 1;
+        let r = catch(|| {
+            let ec = ExtrapolatingCurve::new(ArrSpec::curve(pf));
+            let hh = 3 * last + 7;
+            (0..=hh).find(|x| {
+                // number of jobs admitted by the closure in a window of length x
+                let n_ref = if *x == 0 { 0 } else { 1 + want.iter().take_while(|dn| **dn < *x).count() };
+                *x <= *want.last().unwrap() && ec.number_arrivals(d(*x)) != n_ref
+            })
+        });
+        match r {
+            Ok(None) => {}
+            Ok(Some(x)) => ctx.violation("arrival::ExtrapolatingCurve#differs-from-closure+long-prefix", &format!("prefix of {l} entries {:?}: number_arrivals({x}) differs from the super-additive closure", pf), "ext-long", json!({"dmin": pf, "ext": "auto"})),
+            Err(err) => ctx.violation("arrival::ExtrapolatingCurve#panic", &format!("long prefix {:?}: panic {err}", pf), "ext-long", json!({"dmin": pf, "ext": "auto"})),
+        }
+    }
+    // long iterator runs
+    let nsteps = 1500usize;
+    let pfs = superadditive_prefixes(3, if ctx.quick() { 3 } else { 5 });
+    let bad = Mutex::new(Vec::<(String, Value)>::new());
+    let n = AtomicU64::new(0);
+    pfs.par_iter().for_each(|pf| {
+        for warm in [false, true] {
+            n.fetch_add(1, Ordering::Relaxed);
+            let r = catch(|| {
+                let ec = ExtrapolatingCurve::new(ArrSpec::curve(pf));
+                if warm {
+                    let c2 = ec.clone();
+                    let _ = c2.number_arrivals(d(40 * pf.last().unwrap() + 100));
+                }
+                let got: Vec<u64> = ec.steps_iter().take(nsteps).map(du).collect();
+                let hz = *got.last().unwrap_or(&1) + 2;
+                let mut eager: Curve = ArrSpec::curve(pf);
+                eager.extrapolate(d(hz + 1));
+                let mut want = vec![];
+                let mut prev = 0;
+                for x in 1..=hz {
+                    let e = eager.number_arrivals(d(x));
+                    if e > prev {
+                        want.push(x);
+                    }
+                    prev = e;
+                }
+                want.truncate(nsteps);
+                (got, want)
+            });
+            match r {
+                Err(e) => bad.lock().unwrap().push((format!("prefix {:?} (far query on a clone first: {warm}): panic {e}", pf), json!({"dmin": pf, "warm": warm}))),
+                Ok((got, want)) => {
+                    let m = got.len().min(want.len());
+                    if let Some(i) = (0..m).find(|i| got[*i] != want[*i]) {
+                        bad.lock().unwrap().push((format!("prefix {:?} (far query on a clone first: {warm}): item #{} of steps_iter is {}, the eagerly extrapolated curve steps at {}", pf, i + 1, got[i], want[i]), json!({"dmin": pf, "warm": warm})));
+                    }
+                }
+            }
+        }
+    });
+    *evals += n.load(Ordering::Relaxed);
+    *nontrivial += n.load(Ordering::Relaxed);
+    let mut bad = bad.into_inner().unwrap();
+    bad.sort_by(|a, b| a.0.len().cmp(&b.0.len()));
+    for (w, c) in bad.into_iter().take(12) {
+        ctx.violation("arrival::ExtrapolatingCurve::steps_iter#differs-from-eager-curve+long-run", &w, "steps-long", c);
+    }
+}
+
 // ---------------- cache histories ----------------
 
 #[derive(Clone, Copy, Debug, Serialize, Deserialize, PartialEq, Eq)]
@@ -370,12 +507,13 @@ pub fn run(ctx: &mut Ctx) -> (String, Value, Vec<String>) {
     let mut samples = vec![];
     part_a(ctx, &mut evals, &mut nontrivial, &mut samples);
     part_a_single(ctx, &mut evals, &mut nontrivial);
+    part_long(ctx, &mut evals, &mut nontrivial);
     let a_evals = evals;
     part_b(ctx, &mut evals, &mut nontrivial, &mut samples);
     let cov = json!({
         "evaluations": evals,
         "distinct_nontrivial": nontrivial,
-        "rule": "(a) every super-additive delta-min prefix of the box x every extrapolate / extrapolate_steps / extrapolate_with_bound argument (non-trivial = the prefix actually grew); (b) every operation history up to the stated depth over a 15-letter alphabet on two clones (and a jittered clone) sharing the cache, replayed on fresh objects and compared with an eagerly extrapolated Curve (non-trivial = history mixes a beyond-prefix query with iterator use)",
+        "rule": "(a) every super-additive delta-min prefix of the box x every extrapolate / extrapolate_steps / extrapolate_with_bound argument (non-trivial = the prefix actually grew); (a') five prefixes of 18-24 entries against the super-additive closure, and 1500-step iterator runs of the auto-extrapolating wrapper (alone / after a far query on a clone) against an eagerly extrapolated Curve; (b) every operation history up to the stated depth over a 15-letter alphabet on two clones (and a jittered clone) sharing the cache, replayed on fresh objects and compared with an eagerly extrapolated Curve (non-trivial = history mixes a beyond-prefix query with iterator use)",
         "extrapolation_cases": a_evals,
         "histories": evals - a_evals,
         "history_depth": if ctx.quick() { 5 } else { 7 },
@@ -388,6 +526,15 @@ pub fn run(ctx: &mut Ctx) -> (String, Value, Vec<String>) {
 pub fn replay(kind: &str, case: &Value, key: &str) -> bool {
     let beyond_key = key.ends_with("-beyond-extended-prefix");
     let pf: Vec<u64> = serde_json::from_value(case["dmin"].clone()).unwrap();
+    if kind == "ext-long" || kind == "steps-long" {
+        // re-run the long-input part and see whether this prefix is still reported
+        let mut c2 = Ctx::new("C13", crate::util::Tier::Quick);
+        let (mut a, mut b) = (0, 0);
+        part_long(&mut c2, &mut a, &mut b);
+        let hit = c2.n_violations() > 0;
+        println!("replay: long-input part re-run (it is cheap and has a fixed input list); still violated: {hit}");
+        return hit;
+    }
     if kind == "hist" {
         let hist: Vec<Op> = serde_json::from_value(case["history"].clone()).unwrap();
         let want = reference_history(&pf, &hist);
